@@ -134,7 +134,7 @@ func runC09(r *ev.Run) {
 			if r.Expired() {
 				return
 			}
-			universe.EnumShard(c, universe.Opts{Shard: item, NoRights: true, NoEP: true, BlackKingIn: cornerish, OnlyStm: 2}, func(p *refchess.Pos) {
+			universe.EnumShard(c, universe.Opts{Shard: item, NoRights: true, NoEP: true, BlackKingIn: ev.Pick(r, []int{56, 63}, cornerish), OnlyStm: 2}, func(p *refchess.Pos) {
 				staleN.Add(1)
 				handle(ws[item].ld.Load(p), p)
 				// and the colour-flipped twin (White's pawn directions and masks)
@@ -144,7 +144,7 @@ func runC09(r *ev.Run) {
 		})
 	}
 	// every 4-man class with the defending king confined to the same region (both colours by mirroring)
-	cornerFour := ev.Pick(r, []string{"KQkr", "KRkr", "KRkb", "KRkn", "KBkn", "KQkb", "KQkn", "Kkrr", "Kkbn", "Kkbp", "Kknp", "KPkb"}, fourMan)
+	cornerFour := ev.Pick(r, append([]string{"KRkb", "KQkb", "KRkn"}, seedPick([]string{"KQkr", "KRkr", "KBkn", "KQkn", "Kkrr", "Kkbn", "Kkbp", "Kknp", "KPkb", "KQkq", "KPkn", "KPkr"}, r.Seed, 4)...), fourMan)
 	for _, name := range cornerFour {
 		c := universe.ParseClass(name)
 		ws := make([]worker, 64)
